@@ -57,6 +57,7 @@ type Contract struct {
 	Local        bool
 	LoopFrame    bool
 	QuickStride  int
+	Tactic       string
 	ThoroughOnly bool
 	Valid        *Clause                // overflow obligations are proved under this validity condition
 	InlineCalls  map[string]map[int]int // callee key -> loop unrollings, for callees translated in place
@@ -91,8 +92,10 @@ type LemmaStmt struct {
 }
 
 type Lemma struct {
+	Float        string // "ideal": the lemma may use contracts proved over ideal reals
 	Reveal       map[string]bool
 	QuickStride  int
+	Tactic       string
 	ThoroughOnly bool
 	Name         string
 	PkgDir       string
@@ -526,6 +529,10 @@ func (cs *ContractSet) parseFile(path, pkgDir string) error {
 			}
 			cur.InlineCalls[fl[0]] = m
 		case "float":
+			if lem != nil {
+				lem.Float = rest
+				break
+			}
 			cur.Float = rest
 		case "emits":
 			cur.Emits = rest
@@ -546,6 +553,15 @@ func (cs *ContractSet) parseFile(path, pkgDir string) error {
 				cur.QuickStride = n
 			} else if lem != nil {
 				lem.QuickStride = n
+			}
+		case "tactic":
+			if rest != "nlsat" {
+				return fail("tactic: only nlsat is known")
+			}
+			if cur != nil {
+				cur.Tactic = rest
+			} else if lem != nil {
+				lem.Tactic = rest
 			}
 		case "tier":
 			if rest != "thorough" {
